@@ -710,6 +710,23 @@ func (s *Store) Open() (retErr error) {
 			return nil
 		}
 
+		// The fingerprint vouches for the database file holding the content of one
+		// particular snapshot. If the snapshot store has moved on since -- a
+		// snapshot installed from the Leader is finalised in the store before the
+		// database is replaced -- the file is behind the store, and skipping the
+		// restore would present old data under the newer snapshot's index.
+		if fp.SnapshotIndex != 0 || fp.SnapshotTerm != 0 {
+			li, tm, err := snapshotStore.LatestIndexTerm()
+			if err != nil {
+				return fmt.Errorf("failed to retrieve latest snapshot index/term: %s", err)
+			}
+			if li != fp.SnapshotIndex || tm != fp.SnapshotTerm {
+				s.logger.Printf("clean snapshot is for snapshot (%d,%d) but latest snapshot is (%d,%d), full restore needed",
+					fp.SnapshotIndex, fp.SnapshotTerm, li, tm)
+				return nil
+			}
+		}
+
 		// The SQLite file is probably OK, so let's proceed. However we need to
 		// verify its checksum matches what we recorded at snapshot time. This is done
 		// asynchronously so as not to block startup. Writes will go into the WAL in
@@ -3146,10 +3163,21 @@ func (s *Store) createSnapshotFingerprint() error {
 	}
 	stats.Get(snapshotCRC32CreateDuration).(*expvar.Int).Set(dur.Milliseconds())
 
+	// Record which snapshot the database file corresponds to: the newest one in
+	// the snapshot store. Both callers guarantee that: a local snapshot has been
+	// finalised in the store before its Finalizer runs, and a restore installs
+	// the newest snapshot.
+	li, tm, err := snapshot.LatestIndexTerm(s.snapshotDir)
+	if err != nil {
+		return fmt.Errorf("failed to get latest snapshot index for snapshot finalizer: %s", err)
+	}
+
 	fp := &FileFingerprint{
-		ModTime: mt,
-		Size:    sz,
-		CRC32:   sum,
+		ModTime:       mt,
+		Size:          sz,
+		CRC32:         sum,
+		SnapshotIndex: li,
+		SnapshotTerm:  tm,
 	}
 	if err := fp.WriteToFile(tmpFP); err != nil {
 		return fmt.Errorf("failed to write snapshot fingerprint to temp file: %s", err)
